@@ -36,6 +36,8 @@ class C09(Prop):
                 "NV.C09.preload_visits_every_file", "NV.C09.preload_epilog_error_loads_nothing", "NV.C09.judge_preload_phase",
                 "NV.C09.preload_keeps_fresh", "NV.C09.backend_total_after_preload", "NV.C09.preloadFiles_visits_all",
                 "NV.C09.judge_preload_clause", "NV.C09.runFull_block_start", "NV.C09.startup_good_start",
+                "NV.C09.preloadObjects_step", "NV.C09.preload_block", "NV.C09.judge_crash_clause_preload",
+                "NV.C09.judge_report_clause_preload", "NV.C09.judge_cycles_clause_preload",
                 "NV.C09.judge_crash_clause", "NV.C09.judge_report_clause", "NV.C09.judge_exit_present", "NV.C09.judge_cycles_clause", "NV.C09.runFull_block",
                 "NV.C09.backend_total", "NV.C09.backend_total_prefix", "NV.C09.freed_conn_never_used_run",
                 "NV.C09.hooks_keep_invariant", "NV.C09.runHook_ok", "NV.C09.errorHandler_same", "NV.C09.cmh_flags",
